@@ -219,3 +219,4 @@ more("C18","Created / updated times at the width boundaries of the seconds count
 # round 14
 more("C14","Documents with key and service ids of 49 and 50 characters (the greatest allowed length).")
 more("C16","The unchanged-value cases also with n and e members beside every EC / OKP key (members of another key type are members like any other).")
+more("C04","Updates and deactivates signed with keys of every type that also carry n and / or e members (members of another key type), with and without a nonce: the reported reveal value maps to the commitment over the key as given.")
